@@ -85,7 +85,7 @@ def exec_PROG(t):
             x = rng.choice(pool)
             y = rng.choice(pool)
             op = rng.choice(['new', 'call', 'setval', 'setitem', 'resize', 'like', 'likekw', 'conv', 'add', 'sub', 'mul', 'div', 'fdiv', 'mod', 'const', 'out', 'outlike',
-                             'neg', 'abs', 'lsh', 'rsh', 'inv', 'and', 'idx', 'sum', 'cumsum', 'max', 'min', 'dot', 'T', 'clip', 'deepcopy', 'npfunc', 'npfunc'])
+                             'neg', 'abs', 'lsh', 'rsh', 'inv', 'and', 'idx', 'idx', 'sum', 'cumsum', 'max', 'min', 'dot', 'T', 'clip', 'deepcopy', 'npfunc', 'npfunc'])
             try:
                 if op == 'new':
                     emit(newobj())
@@ -167,7 +167,8 @@ def exec_PROG(t):
                         emit(rng.choice([lambda: x & m, lambda: x | m, lambda: x ^ m, lambda: m & x])())
                 elif op == 'idx':
                     if x.ndim >= 1:
-                        emit(x[rng.randrange(x.shape[0])])
+                        k = rng.randrange(x.shape[0])
+                        emit(rng.choice([lambda: x[k], lambda: x[k:], lambda: x[:k + 1], lambda: x[::-1], lambda: x.copy(), lambda: x[...]])())
                 elif op in ('sum', 'cumsum', 'max', 'min'):
                     if x.ndim >= 1 and not x.scaled and x.n_word <= 40:
                         ax = rng.choice([None, 0] + ([1] if x.ndim == 2 else []))
@@ -204,6 +205,13 @@ def exec_PROG(t):
             except (ValueError, TypeError, ZeroDivisionError, OverflowError) as e:
                 # an operation that raises produces no object (nothing to judge); remember the class for the evidence
                 out.extend([])
+            # every object produced earlier and still alive must have stayed well-formed, whatever happened to its relatives
+            # (views, shallow copies, templates, operands) in this step
+            for z in pool:
+                if z.n_word <= 52:
+                    w = wf_tokens(z)
+                    if w is not None:
+                        out.extend(w)
     except Exception as e:
         return [exc_token(e)]
     return out
